@@ -318,6 +318,7 @@ func compute(lunar *Lunar, lunarYear *LunarYear) {
 	computeDay(lunar)
 	computeTime(lunar)
 	computeWeek(lunar)
+	lunar.eightChar = NewEightChar(lunar)
 }
 
 // GetGan @Deprecated: 该方法已废弃，请使用GetYearGan
